@@ -802,9 +802,9 @@ func init() {
 		Assumptions: []string{"AddWithID on a live id is outside the statement and not offered", "BM25 Add cannot fail, so a 2nd-stage failure cannot be produced", "hnsw single-index scenario uses efSearch 64 >= resident nodes"},
 		Shards: func(tier string) []vShard {
 			var sh []vShard
-			dh, dr := 3, 5
+			dh, dr := 4, 6
 			if tier == "thorough" {
-				dh, dr = 4, 7
+				dh, dr = 5, 8
 			}
 			for _, cfg := range vHybCfgs() {
 				cfg := cfg
